@@ -614,4 +614,3 @@ func stripExpected(s string, all []*node) string {
 	}
 	return s
 }
-
